@@ -39,6 +39,9 @@ KERNELS = [
     {"name": "mju_dofCom", "file": SPATIAL},
     {"name": "mju_transformSpatial", "file": SPATIAL},
     {"name": "mju_makeFrame", "file": SPATIAL},
+    # ---- engine_derivative.c (C24: analytic derivatives of the quaternion utilities)
+    {"name": "mjd_subQuat", "file": "src/engine/engine_derivative.c"},
+    {"name": "mjd_quatIntegrate", "file": "src/engine/engine_derivative.c"},
 ]
 
 # files whose functions may be inlined when called from a kernel
